@@ -301,14 +301,15 @@ def run(ctx, anchors=None):
     ft = {}
     for o in r_outs:
         r = nslice(o.ret)
-        if isinstance(r, tuple) and r[0] == "ap" and r[1] == "loopvar" and len(r) == 5:
+        if isinstance(r, tuple) and r[0] == "ap" and r[1] == "loopvar" and len(r) == 6:
             key, newk, old = r[2], r[3], r[4]
+            mine = ("prev", r[5][1])      # the value of k at the beginning of an arbitrary iteration
             if old != K:
                 raise AnalysisBroken("R05.1: ComputeTaprootMerkleRoot does not start the fold from the leaf hash")
             if isinstance(key, tuple) and key[0] == "ap" and key[1] == "while" and isinstance(key[2], tuple) and key[2][:3] == ("ap", "<", ("it", 0)):
                 ft["path_len"] = key[2][3]
-            conds = [(nslice(c02sub(t)), v) for (t, v) in o.conds]
-            pairs.append((conds, c02sub(newk)))
+            conds = [(nslice(c02sub(c02sub(t), mine, K)), v) for (t, v) in o.conds]
+            pairs.append((conds, c02sub(c02sub(newk), mine, K)))
     ft.update(fold_facts(pairs, K, "twin"))
     for key, what in (("hasher", "branch hasher"), ("cmp", "ordering predicate operands"), ("then", "operands streamed when k < node"), ("else", "operands streamed otherwise"),
                       ("slice", "control-block slice of path node i"), ("path_len", "path length"), ("k_update", "k := hash of the branch")):
